@@ -21,6 +21,14 @@ from props import geo  # noqa: E402
 
 MAXF = geo.MAXF
 
+if h.MODEL:
+    import types as _types
+
+    from models import shp as _shp
+
+    _shp.ABSTRACT_GEOS = True  # only ob_geos_bounds reaches the GEOS calls
+    ops.json = _types.SimpleNamespace(loads=lambda doc: doc)
+
 
 def _geom(tag, variant, v):
     if not geo.all_finite(geo.used(tag, variant, v)):
@@ -141,6 +149,42 @@ def ob_closed_form_ieee(p0: float, p1: float, p2: float, p3: float, tb: float, f
     return h.done(any=True)
 
 
+def ob_geos_bounds(p0: float, p1: float, p2: float, p3: float, p4: float, p5: float, tb: float, fb: float) -> bool:
+    """
+    pre: 0 <= tb <= 1000 and 0 <= fb <= 100000
+    pre: p0 <= 1000 and p2 <= 1000 and p4 <= 1000
+    post: _
+    """
+    # the six types buffered through GEOS, at the level of BOUNDS only: GEOS buffer / clip are abstracted by
+    # their bounding rectangles (models/shp.py ABSTRACT_GEOS)
+    tag, variant = h.P("tag"), h.P("variant")
+    P = [p0, p1, p2, p3, p4, p5]
+    g = _geom(tag, variant, P)
+    if g is None:
+        return True
+    e = geo.extent(tag, variant, P)
+    try:
+        r = ops.buffer_geometry(g, time_buffer=tb, freq_buffer=fb)
+    except ValueError:
+        return h.fail("buffering a valid geometry with non-negative buffers raised")
+    if r.type not in ("Polygon", "MultiPolygon"):
+        return h.fail("wrong result type")
+    b = ops.compute_bounds(r)
+    tol = 0 if h.MODEL else 1e-6
+    if not (b[0] >= 0 and b[1] >= 0 and b[3] <= MAXF):
+        return h.fail("result leaves the valid domain")
+    if not (b[0] <= e[0] + tol and b[2] >= e[2] - tol and b[1] <= e[1] + tol and b[3] >= e[3] - tol):
+        return h.fail("result does not contain the original")
+    # GEOS approximates round caps by 8-segment polygons, so the extension reaches only >= 98% of the buffer;
+    # the literal 'at least the requested buffers' is NOT decided for these types (see DESIGN.md, observations)
+    k = 0.98 if h.MODEL else 0.979
+    if not ((b[0] <= e[0] - k * tb + tol or b[0] <= tol) and b[2] >= e[2] + k * tb - tol):
+        return h.fail("time bounds extended by less than 98% of the buffer")
+    if not ((b[1] <= e[1] - k * fb + tol or b[1] <= tol) and (b[3] >= e[3] + k * fb - tol or b[3] >= MAXF - tol)):
+        return h.fail("frequency bounds extended by less than 98% of the buffer")
+    return h.done(any=True)
+
+
 ALL_TV = [("TimeStamp", 0), ("TimeInterval", 0), ("BoundingBox", 0), ("Point", 0), ("LineString", 0),
           ("Polygon", 0), ("MultiPoint", 0), ("MultiLineString", 0), ("MultiPolygon", 0)]
 
@@ -156,6 +200,12 @@ def plan():
                       twins=("clamped", "free")))
         obs.append(Ob("closed-form-ieee-%s" % tag, ob_closed_form_ieee, "ieee", 240 if tag == "TimeStamp" else 2400,
                       dict(tag=tag), q if tag == "TimeStamp" else ("thorough",), twins=("any",), twin_timeout=600))
+    for tag, variant in ALL_TV:
+        if tag in ("TimeStamp", "TimeInterval", "BoundingBox"):
+            continue
+        obs.append(Ob("geos-bounds-%s" % tag, ob_geos_bounds, "real", 1200, dict(tag=tag, variant=variant, abstract_geos=True),
+                      q if tag in ("Point", "LineString", "Polygon") else ("thorough",), twins=("any",),
+                      twin_timeout=300))
     return obs
 
 
@@ -171,8 +221,13 @@ INFO = dict(
     "and the exact widened result in IEEE-754",
     trusted_base=["models/pyd.py", "models/shp.py (only reached for the guard)", "CrossHair 0.0.110 + z3"],
     outside=[
-        "the six GEOS-buffered types (Point, LineString, Polygon, MultiPoint, MultiLineString, MultiPolygon) with "
-        "non-negative buffers: containment, bounds growth, monotonicity and validity there are properties of GEOS "
-        "buffer/clip output (scale -> buffer -> unscale -> clip_by_rect) and are NOT decided",
+        "the six GEOS-buffered types (Point, LineString, Polygon, MultiPoint, MultiLineString, MultiPolygon): only "
+        "their BOUNDS are reasoned about (geos-bounds-*): GEOS buffer and clip_by_rect are abstracted by their "
+        "bounding rectangles (each side of bbox(buffer(g, d)) lies between 0.98 d and 5 d outside bbox(g), amounts "
+        "chosen by the solver; clipping intersects rectangles), which decides 'stays in the domain', 'contains the "
+        "original bounds' and 'bounds extend by at least 98% of the buffers (clipped)' for the glue around GEOS; the "
+        "literal 'at least the requested buffers' fails on real GEOS by the polygonal approximation of round caps "
+        "(observed: buffer 0.5 -> extension 0.49999973; buffer 2.5 -> 2.498) and is not decided; point-wise containment, the exact shape, monotonicity and the validity of GEOS's own output are NOT "
+        "decided",
     ],
 )
